@@ -1,11 +1,198 @@
-(* C04 — Essential object invariants. ONLY theorem statements. *)
-From Coq Require Import List Arith NArith Bool.
+(* C04 — Essential object invariants hold for every object kind and every key kind.
+   ONLY theorem statements; each is closed by [exact] of a lemma of C04/Proofs*.v.
+   S = ECMA-262 10.1 ordinary object (Model.v, first half); I = goja's baseObject transcribed (second
+   half); fx_none = the current tree, fx_all = the five one-line repairs switched on. *)
+From Coq Require Import List Arith NArith Bool Permutation.
 Import ListNotations.
-From Verif.C04 Require Import Model Proofs.
+From Verif.C04 Require Import Model Proofs ProofsKeys ProofsSet.
+
+(* ---------------------------------------------------------------------------------------------- *)
+(* 1. The define decision table: goja's _defineOwnProperty = ValidateAndApplyPropertyDescriptor, for
+      EVERY existing property (bare value, data, accessor) and EVERY partial descriptor.  On the
+      current tree the full statement is refuted (F1, N2): it is proved outside two regions given by
+      boolean guards, the guards are exact, and with the repairs on it holds everywhere. *)
+
+Theorem define_eq_spec_partial : forall ext ex d,
+  desc_wf d = true -> oiprop_wf ex = true -> in_F1 ex d = false -> in_N2 ex d = false ->
+  option_map absP (GojaDefine fx_none ext ex d) = ValidateAndApply ext (option_map absP ex) d.
+Proof. exact Proofs.define_eq_spec_partial. Qed.
+
+Theorem define_guard_exact : forall ext ex d,
+  desc_wf d = true -> oiprop_wf ex = true -> in_F1 ex d || in_N2 ex d = true ->
+  option_map absP (GojaDefine fx_none ext ex d) <> ValidateAndApply ext (option_map absP ex) d.
+Proof. exact Proofs.define_guard_exact. Qed.
 
 Theorem define_refuted :
   exists ext ex d, desc_wf d = true /\ oiprop_wf ex = true /\
     option_map absP (GojaDefine fx_none ext ex d) <> ValidateAndApply ext (option_map absP ex) d.
 Proof. exact Proofs.define_refuted. Qed.
 
+Theorem define_eq_spec_repaired : forall ext ex d,
+  desc_wf d = true -> oiprop_wf ex = true ->
+  option_map absP (GojaDefine fx_all ext ex d) = ValidateAndApply ext (option_map absP ex) d
+  /\ oiprop_wf (GojaDefine fx_all ext ex d) = true.
+Proof. exact Proofs.define_eq_spec_fixed. Qed.
+
+(* the representation invariant of valueProperty (an accessor carries no value and no writable flag, a
+   data property no getter/setter) is kept by define outside N1 and N3, and broken exactly there *)
+Theorem define_wf_partial : forall ext ex d,
+  desc_wf d = true -> oiprop_wf ex = true ->
+  in_N1 fx_none ext ex d = false -> in_N3 fx_none ext ex d = false ->
+  oiprop_wf (GojaDefine fx_none ext ex d) = true.
+Proof. exact Proofs.define_wf_partial. Qed.
+
+Theorem define_wf_guard_exact : forall ext ex d,
+  desc_wf d = true -> oiprop_wf ex = true ->
+  in_N1 fx_none ext ex d || in_N3 fx_none ext ex d = true ->
+  oiprop_wf (GojaDefine fx_none ext ex d) = false.
+Proof. exact Proofs.define_wf_guard_exact. Qed.
+
+Theorem define_hidden_writable_refuted :
+  exists ip, n1_step1 = Some ip /\ iprop_wf ip = false /\
+    option_map absP (GojaDefine fx_none true (Some ip) (d_value_only (VNum 2))) = Some (PData (VNum 2) true true true) /\
+    ValidateAndApply true (Some (absP ip)) (d_value_only (VNum 2)) = Some (PData (VNum 2) false true true).
+Proof. exact Proofs.define_hidden_writable_refuted. Qed.
+
+(* non-vacuity: a point inside the proved region where something non-trivial happens (a non-configurable,
+   writable data property is made non-writable and given a new value), and the guards are satisfiable
+   both ways *)
+Example define_eq_spec_nonvacuous :
+  let ex := Some (IProp (mkVP (Some (VNum 1)) true false true false None None)) in
+  let d := mkDesc (Some (VNum 2)) (Some false) None None None None in
+  desc_wf d = true /\ oiprop_wf ex = true /\ in_F1 ex d = false /\ in_N2 ex d = false /\
+  ValidateAndApply true (option_map absP ex) d = Some (PData (VNum 2) false true false) /\
+  in_F1 (Some f1_existing) f1_desc = true /\ in_N2 (Some n2_existing) n2_desc = true.
+Proof. vm_compute. repeat split. Qed.
+
+(* ---------------------------------------------------------------------------------------------- *)
+(* 2. Essential invariants along EVERY history of S-operations, from ANY heap (induction over the
+      history): a non-configurable property is never deleted, keeps kind, enumerability and
+      non-configurability, keeps get/set if it is an accessor, and keeps its value and stays
+      non-writable if it is a non-writable data property; a non-extensible object stays non-extensible,
+      keeps its prototype and gains no key. *)
+
+Theorem essential_invariants : forall (h : heap) (ops : list op) i k p,
+  find k (o_props (hget h i)) = Some p -> p_conf p = false ->
+  exists p', find k (o_props (hget (srun h ops) i)) = Some p' /\ frozen_part p p'.
+Proof. exact Proofs.essential_invariants. Qed.
+
+Theorem nonextensible_invariants : forall (h : heap) (ops : list op) i,
+  o_ext (hget h i) = false ->
+  o_ext (hget (srun h ops) i) = false /\
+  o_proto (hget (srun h ops) i) = o_proto (hget h i) /\
+  forall k, find k (o_props (hget (srun h ops) i)) <> None -> find k (o_props (hget h i)) <> None.
+Proof. exact Proofs.nonextensible_invariants. Qed.
+
+Theorem frozen_is_final : forall (h : heap) (ops : list op) i,
+  is_frozen (hget h i) = true ->
+  forall k, find k (o_props (hget (srun h ops) i)) = find k (o_props (hget h i)).
+Proof. exact Proofs.frozen_is_final. Qed.
+
+Theorem history_preserves_objects : forall (h : heap) (ops : list op), length (srun h ops) = length h.
+Proof. intros h ops. symmetry. exact (proj1 (Proofs.srun_le ops h)). Qed.
+
+(* non-vacuity: a history that attacks a non-configurable non-writable property and a sealed object
+   in every way; the hypotheses hold and the attacked state is non-trivial *)
+Example essential_invariants_nonvacuous :
+  let h0 := [mkObj None true [(KStr 0, PData (VNum 1) false true false); (KIdx 2, PAcc (Some 0) None false false)];
+             mkObj (Some 0) false [(KSym 0, PData (VNum 2) true true true)]] in
+  let ops := [ODelete 0 (KStr 0); ODefine 0 (KStr 0) (mkDesc (Some (VNum 9)) None None None None None);
+              OSet 1 (KStr 0) false (VNum 9) 0; ODefine 0 (KIdx 2) (mkDesc None (Some false) None None None None);
+              ODefine 1 (KStr 5) (d_create (VNum 3)); OSetProto 1 None; ODelete 1 (KSym 0); OFreeze 0;
+              OSet 1 (KSym 0) false (VNum 7) 1] in
+  find (KStr 0) (o_props (hget h0 0)) = Some (PData (VNum 1) false true false) /\
+  o_ext (hget h0 1) = false /\
+  map s_dump (srun h0 ops) =
+    [(None, false, [(KIdx 2, PAcc (Some 0) None false false); (KStr 0, PData (VNum 1) false true false)]);
+     (Some 0, false, [])].
+Proof. vm_compute. repeat split. Qed.
+
+(* ---------------------------------------------------------------------------------------------- *)
+(* 3. Own-key order: for EVERY history of add / delete / enumerate (enumeration mutates
+      lastSortedPropLen and idxPropCount), goja's lazily ordered propNames, once ordered, is exactly
+      OrdinaryOwnPropertyKeys of the keys in creation order: array indices ascending, then strings in
+      creation order (symbols are kept in a separate insertion-ordered table: property C18).  Keys are
+      unique, the two sides hold the same key set, and idxPropCount — which setForeignIdx trusts to skip
+      a lookup — is exact. *)
+
+Theorem ownkeys_order : forall ops : list kop, no_sym_ops ops ->
+  n_names (ensure_order (krun_i ops)) = sort_idx (filter is_idx (krun_s ops)) ++ filter is_str (krun_s ops).
+Proof. exact ProofsKeys.ownkeys_order. Qed.
+
+Theorem ownkeys_unique : forall ops : list kop, NoDup (n_names (krun_i ops)) /\ NoDup (krun_s ops).
+Proof. exact ProofsKeys.ownkeys_unique. Qed.
+
+Theorem ownkeys_same_set : forall (ops : list kop) k, In k (n_names (krun_i ops)) <-> In k (krun_s ops).
+Proof. exact ProofsKeys.ownkeys_same_set. Qed.
+
+Theorem idxcount_exact : forall ops : list kop,
+  n_idxc (ensure_order (krun_i ops)) = length (filter is_idx (krun_s ops)).
+Proof. exact ProofsKeys.idxcount_exact. Qed.
+
+Theorem sort_idx_is_sorted : forall l, NoDup l -> (forall k, In k l -> is_idx k = true) ->
+  SortedIdx (sort_idx l) /\ Permutation l (sort_idx l).
+Proof. exact ProofsKeys.sort_idx_is_sorted. Qed.
+
+Example ownkeys_order_nonvacuous :
+  let ops := [KAdd (KStr 0); KAdd (KIdx 5); KAdd (KIdx 2); KEnum; KAdd (KIdx 3); KDel (KIdx 5);
+              KAdd (KStr 1); KAdd (KIdx 1); KEnum; KAdd (KIdx 0); KAdd (KIdx 5)] in
+  n_names (krun_i ops) = [KIdx 1; KIdx 2; KIdx 3; KStr 0; KStr 1; KIdx 0; KIdx 5] /\
+  krun_s ops = [KStr 0; KIdx 2; KIdx 3; KStr 1; KIdx 1; KIdx 0; KIdx 5] /\
+  n_names (ensure_order (krun_i ops)) = [KIdx 0; KIdx 1; KIdx 2; KIdx 3; KIdx 5; KStr 0; KStr 1].
+Proof. vm_compute. repeat split. Qed.
+
+(* ---------------------------------------------------------------------------------------------- *)
+(* 4. [[Set]] with a receiver.  In S, whatever the target and its prototype chain, OrdinarySet changes
+      no object other than the receiver and calls at most one setter, with this = receiver.  goja's
+      setForeignSym violates this (F2: the write lands on the receiver's prototype); the string-keyed
+      twin of the same call is right, and with the repair on the symbol case agrees with S.  For goja's
+      own walk (setOwnStr/_setForeignStr/_setForeignIdx/setForeignSym transcribed) the same receiver-only
+      property is proved for all heaps: on the current tree for string and index keys, for symbols under
+      the repair (the guard [is_sym k && negb (fix_f2 fx) = false] carves out exactly F2). *)
+
+Theorem set_only_receiver : forall fuel (h : heap) o k v r,
+  (forall j, j <> r -> hget (fst (fst (s_set fuel h o k v r))) j = hget h j) /\
+  (snd (s_set fuel h o k v r) = [] \/ exists s, snd (s_set fuel h o k v r) = [Ev s r (Some v)]).
+Proof. exact ProofsSet.s_set_only_receiver. Qed.
+
+Theorem goja_set_only_receiver_partial : forall fx (h : iheap) o k num v r,
+  is_sym k && negb (fix_f2 fx) = false ->
+  forall j, j <> r -> i_dump (ihget (fst (fst (i_set fx h o k num v r))) j) = i_dump (ihget h j).
+Proof. exact ProofsSet.i_set_only_receiver. Qed.
+
+Theorem set_refuted :
+  map s_dump (fst (fst (sstep f2_sheap f2_op))) <> map i_dump (fst (fst (istep fx_none f2_iheap f2_op)))
+  /\ hget (fst (fst (sstep f2_sheap f2_op))) 0 = hget f2_sheap 0
+  /\ i_dump (ihget (fst (fst (istep fx_none f2_iheap f2_op))) 0) <> i_dump (ihget f2_iheap 0).
+Proof. exact ProofsSet.set_refuted. Qed.
+
+Theorem set_repaired_witness :
+  map s_dump (fst (fst (sstep f2_sheap f2_op))) = map i_dump (fst (fst (istep fx_all f2_iheap f2_op))).
+Proof. exact ProofsSet.set_repaired_witness. Qed.
+
+Theorem set_str_twin_agrees :
+  let op := OSet 2 (KStr 0) false (VNum 3) 1 in
+  map s_dump (fst (fst (sstep f2_sheap op))) = map i_dump (fst (fst (istep fx_none f2_iheap op))).
+Proof. exact ProofsSet.set_str_twin_agrees. Qed.
+
+Print Assumptions define_eq_spec_partial.
+Print Assumptions define_guard_exact.
 Print Assumptions define_refuted.
+Print Assumptions define_eq_spec_repaired.
+Print Assumptions define_wf_partial.
+Print Assumptions define_wf_guard_exact.
+Print Assumptions define_hidden_writable_refuted.
+Print Assumptions essential_invariants.
+Print Assumptions nonextensible_invariants.
+Print Assumptions frozen_is_final.
+Print Assumptions history_preserves_objects.
+Print Assumptions ownkeys_order.
+Print Assumptions ownkeys_unique.
+Print Assumptions ownkeys_same_set.
+Print Assumptions idxcount_exact.
+Print Assumptions sort_idx_is_sorted.
+Print Assumptions set_only_receiver.
+Print Assumptions goja_set_only_receiver_partial.
+Print Assumptions set_refuted.
+Print Assumptions set_repaired_witness.
+Print Assumptions set_str_twin_agrees.
